@@ -91,6 +91,11 @@ fn kind(k: &str) -> (&'static str, &'static str, Vec<(&'static str, &'static str
         "cors" => ("GET", "/hello", vec![("origin", "http://evil.test")], None),
         "options" => ("OPTIONS", "/hello", vec![], None),
         "post" => ("POST", "/echo", vec![], Some(b"request body of some length".to_vec())),
+        // bodies the handler never looks at (they arrive together with the head), each followed by further requests on the
+        // same HTTP/1.1 connection
+        "postignored" => ("POST", "/hello", vec![], Some(b"a body nobody reads".to_vec())),
+        "postignored2" => ("POST", "/missing", vec![], Some(gen_bytes(700, 3))),
+        "putignored" => ("PUT", "/uncached", vec![], Some(b"xy".to_vec())),
         "postbig" => ("POST", "/echo", vec![], Some(gen_bytes(3000, 5))),
         "put" => ("PUT", "/echo", vec![], Some(b"x".to_vec())),
         "post20k" => ("POST", "/echo20k", vec![], Some(gen_bytes(20_000, 9))),
@@ -102,7 +107,7 @@ fn kind(k: &str) -> (&'static str, &'static str, Vec<(&'static str, &'static str
 }
 static PAD: std::sync::LazyLock<String> = std::sync::LazyLock::new(|| "p".repeat(9000));
 static MANY_FIELDS: std::sync::LazyLock<Vec<(String, &'static str)>> = std::sync::LazyLock::new(|| (0..450).map(|i| (format!("x-h-{i:03}"), "v")).collect());
-const KINDS: [&str; 25] = ["manyfields", "cookies", "headcookies", "post20k", "post20k1", "post50k", "post200k", "get", "head", "getgz", "getbr", "headgz", "uncached", "empty", "missing", "headmissing", "range", "range416", "unsafe", "png406", "cors", "options", "post", "postbig", "put"];
+const KINDS: [&str; 28] = ["postignored", "postignored2", "putignored", "manyfields", "cookies", "headcookies", "post20k", "post20k1", "post50k", "post200k", "get", "head", "getgz", "getbr", "headgz", "uncached", "empty", "missing", "headmissing", "range", "range416", "unsafe", "png406", "cors", "options", "post", "postbig", "put"];
 
 pub struct Pair {
     rt: tokio::runtime::Runtime,
@@ -152,6 +157,7 @@ impl Group for Pair {
     fn generate(&self, ctx: &Ctx, rng: &mut Rng) -> Vec<String> {
         let n = if ctx.mode == Mode::Quick { 30 } else { 600 };
         let mut v = vec![format!("c20.pair {}", list(KINDS.iter().map(|s| (*s).to_owned())))];
+        v.push("c20.pair [postignored,get,postignored2,get,putignored,head,postignored,postignored,get]".to_owned());
         // heads of every length around 513, 1025, 2049, 4097, 8193 bytes (the request line, `host`, `accept` and the field's
         // own name take 60-100 of them)
         for t in [513usize, 1025, 2049, 4097, 8193] {
